@@ -232,7 +232,14 @@ impl SimSource {
                     log.err_fired = Some((op, k, self.tag));
                     log.trace.push(Tr { op, call, pos, act: A_ERR, len: k as u32 });
                     let kind = ERR_KINDS[k as usize % ERR_KINDS.len()];
-                    return Pre::Err(io::Error::new(kind, format!("qxsim-fault-{}", self.tag)));
+                    let msg = format!("qxsim-fault-{}", self.tag);
+                    // k >= 5: the io::Error carries a quick_xml::Error as its payload, as an
+                    // adapter does that feeds one reader from another (XML inside XML)
+                    return Pre::Err(if (k as usize / ERR_KINDS.len()) % 2 == 1 {
+                        io::Error::new(kind, quick_xml::Error::IllFormed(quick_xml::errors::IllFormedError::MissingEndTag(msg)))
+                    } else {
+                        io::Error::new(kind, msg)
+                    });
                 }
             }
         }
